@@ -67,7 +67,7 @@ type recEmitter struct {
 }
 
 func (e *recEmitter) Emit(p *iface.EventPubSubPayload) error { e.got = append(e.got, p); return nil }
-func (e *recEmitter) Close() error                         { return nil }
+func (e *recEmitter) Close() error                           { return nil }
 
 // VerifC20FrameRoundTrip: a payload sent by Send is delivered by the receiving
 // side's handleNewPeer exactly once, byte for byte, attributed to the stream's
